@@ -27,7 +27,7 @@ def parseCase (c : String) : Option (List (List Elem)) :=
   -- `mergeD` / `mergeS`: the same merge under comparators that answer differences / ±7 (harness/run/c08.go); the model's
   -- comparator is the order they all induce
   | [h] :: ins =>
-    if h == "merge" || h == "mergeD" || h == "mergeS" || h == "mergeA" then
+    if h == "merge" || h == "mergeZ" || h == "mergeD" || h == "mergeS" || h == "mergeA" then
       ins.mapM (fun ts => match ts with | [t] => parseElems t | _ => none)
     else none
   | _ => none
@@ -37,6 +37,11 @@ def handle (c obs : String) : String × Bool × String :=
   match parseCase c with
   | none => ("bad-case", false, "unparsable case")
   | some ins =>
+    -- `mergeZ`: elements of a zero-size type (harness/run/c08.go): the multiset clause reads "as many elements as the inputs hold"
+    if (words c).head? == some "mergeZ" then
+      let want := s!"ok z{(mergeStreams ltKey ins).length}"
+      (want, obs == s!"ok z{ins.flatten.length}", if obs == s!"ok z{ins.flatten.length}" then "" else s!"want ok z{ins.flatten.length}")
+    else
     let model := "ok " ++ fmtElems (mergeStreams ltKey ins)
     -- the property, evaluated on what the real code returned: stable sort of the concatenation
     let want := "ok " ++ fmtElems (ins.flatten.mergeSort leKey)
